@@ -93,6 +93,12 @@ def generate(seed, tier):
                                    'value': [1.0 + 0.5 * i for i in range(12)]}))
             inserts.append((pos2, {'op': 'AddGlobalEquation', 'model': model, 'var': 'GLOBX%d' % j,
                                    'eqn': '{name:%sx} + 0.0' % nm}))
+    if rng.random() < 0.25:
+        # legal local names that happen to look like float literals to float(): INF (inflation), NAN, Infinity
+        ci, cop = secs[rng.randrange(len(secs))]
+        nm_ = rng.choice(['INF', 'NAN', 'Infinity', 'Inf', 'NaN'])
+        inserts.append((main_i, {'op': 'AddVariable', 'sector': cop['id'], 'name': nm_, 'eqn': '0.02'}))
+        inserts.append((main_i, {'op': 'AddVariable', 'sector': cop['id'], 'name': 'EXP' + nm_, 'eqn': rng.choice([nm_, '-' + nm_, ' ' + nm_ + ' '])}))
     if rng.random() < 0.3:
         # a diagnostic dump in the middle of construction (it generates full codes with the countries known so far)
         inserts.append((rng.randint(secs[0][0] + 1, main_i), {'op': 'LogInfo', 'model': model}))
